@@ -59,7 +59,7 @@ class Fn(Item):
 
     def __init__(self, file, path, name=None, requires=(), ensures=(), decreases=None, ret='r',
                  loops=None, proof_start=None, proof_tail=None, attrs=(), rewrites=(), sig_rewrites=(),
-                 props=None, wrap=None, vis='pub', features=None, no_unwind=False, returns=None):
+                 props=None, wrap=None, vis='pub', features=None, no_unwind=False, returns=None, hints=()):
         super().__init__(file, path, name, rewrites, props, wrap, features)
         self.requires = _clauses(requires)
         self.ensures = _clauses(ensures)
@@ -73,6 +73,7 @@ class Fn(Item):
         self.vis = vis
         self.no_unwind = no_unwind
         self.returns = returns
+        self.hints = list(hints)   # [(regex anchored on body text, proof text)]: inserted right after the unique match
 
 
 class Type(Item):
@@ -502,6 +503,11 @@ def build_fn(item, text, chunks, tagbase):
             ins.append((L['brace_end'], [Chunk('\n' + lp.proof_start.rstrip() + '\n', f'{tagbase}|proof|loop{ordinal}|start')]))
         if lp.proof_end:
             ins.append((L['close_start'], [Chunk('\n' + lp.proof_end.rstrip() + '\n', f'{tagbase}|proof|loop{ordinal}|end')]))
+    for hi, (rx, ptxt) in enumerate(item.hints):
+        ms = list(re.finditer(rx, body, flags=re.S | re.M))
+        if len(ms) != 1:
+            raise LostAnchor(f'{where}: hint anchor {rx!r} matched {len(ms)} times, expected 1')
+        ins.append((ms[0].end(), [Chunk('\n' + ptxt.rstrip() + '\n', f'{tagbase}|proof|hint{hi + 1}')]))
     pos = 0
     for p, cs in sorted(ins, key=lambda x: x[0]):
         chunks.append(Chunk(body[pos:p], tagbase + '|body'))
